@@ -1,7 +1,7 @@
 (** C01 - Parent and children links always describe one consistent forest.
     Only statements; proofs are [exact <lemma of Proofs/>]. *)
 Require Import AT.Model.Base AT.Model.Heap AT.Model.Mutate AT.Spec.MutSpec.
-Require AT.Proofs.MutInv AT.Proofs.MutHistory AT.Proofs.MutParent AT.Proofs.MutDelRun AT.Proofs.MutSetRun.
+Require AT.Proofs.MutInv AT.Proofs.MutHistory AT.Proofs.MutParent AT.Proofs.MutDelRun AT.Proofs.MutSetRun AT.Proofs.MutAssert.
 Import AT.Proofs.MutInv AT.Proofs.MutHistory.
 
 (** One step: ANY call (the three assignments and the constructors), with ANY
@@ -82,13 +82,14 @@ Proof.
 Qed.
 Print Assumptions C01_assertions_children.
 
-(** Not yet proved in full (kept visible: calls with hook faults): under [Inv] no internal assertion fires, so
-    ANYTREE_ASSERTIONS on/off behave identically.  The correspondence check
-    evaluates it on every explored call (no AssertionError observed; the
-    assertion-on interpreter agrees with the model). *)
-Definition C01_assertions_full : Prop :=
-  forall typed faults fuel o s, Inv (heap_of s) -> valid_op (length (heap_of s)) o ->
-    run_op typed true faults fuel o s = run_op typed false faults fuel o s.
+(** under [Inv] no internal assertion fires: with ANYTREE_ASSERTIONS on, every
+    call - any arguments, any hook-fault oracle, any re-entrancy fuel, both
+    mixins - is the very same run (result, link state, hook log) as with
+    assertions off *)
+Theorem C01_assertions : forall typed faults fuel o s, Inv (heap_of s) -> valid_op (length (heap_of s)) o ->
+  run_op typed true faults fuel o s = run_op typed false faults fuel o s.
+Proof. exact AT.Proofs.MutAssert.assertions_irrelevant. Qed.
+Print Assumptions C01_assertions.
 
 (** non-vacuity: a two-tree forest satisfies the invariant, and a refused,
     half-rolled-back call on it is covered by the hypotheses *)
